@@ -1,389 +1,223 @@
-import Abmarl.Lemmas.GridInv
-import Abmarl.Lemmas.Vitals
-import Abmarl.Model.Resets
-import Abmarl.Props.C12
-import Abmarl.Props.C11
-import Abmarl.Props.C13
+import Abmarl.Props.C03Base
+import Abmarl.Model.GridSim
 /-!
-# C03 — Grid contents, agent positions and agent vitals stay mutually consistent
+# C03 for every reachable state
 
-The invariant is `World.WInv` (Spec/Grid.lean): every cell holds only real, active agents whose
-position is that cell, each once, pairwise allowed to overlap (the table is symmetric); every active
-agent is stored in the cell of its in-grid position; `0 ≤ health ≤ 1`; `active ↔ health > 0`;
-`ammo ≥ 0` (and never above the initial ammunition); orientation one of the four directions.
-
-This file collects the preservation theorems, one per operation family, and lifts them to every
-reachable state by induction over operation sequences:
-
-* `C03_moves_preserve` — the three move actors (any action of the action space, any active agent);
-* attacks and resets: see the sections below (imported from the C11 / C13 work).
+`C03_reachable`: after a first full reset, **every** sequence of moves (three actors), attacks (four
+actors), deaths and further resets — any agents, any actions, any tapes, any interleaving, any
+length — ends in a world satisfying the invariant `WInv`.  Since the statement holds for every
+sequence it holds for every prefix, i.e. after every single operation of a history.
 -/
 namespace Abmarl
 open World
 
-/-- the invariant follows from the C12 specification of a move call -/
-theorem WInv_of_specC12 {w : World} {c : MoveCall} {o : Except GErr MoveOut} (hI : w.WInv = true)
-    (ha : c.agent < w.n) (hact : (w.stOf c.agent).active = true) (hsp : c.inSpace w = true)
-    (hs : specC12 w c o = true) : specC03Move w o = true := by
-  have hst_len : c.agent < w.st.length := (placed_of_WInv hI ha hact).aSt
-  simp only [specC03Move, hI, Bool.not_true, Bool.false_or]
-  cases o with
-  | error e => cases c <;> simp [specC12] at hs
-  | ok out =>
-    simp only
-    cases c with
-    | move a d =>
-      simp only [MoveCall.agent] at ha hact
-      by_cases hmv : (w.cfgOf a).moving = true
-      · simp only [specC12, hmv, if_true] at hs
-        cases hr : out.ret with
-        | none => simp [hr] at hs
-        | some ok => rw [hr] at hs; exact move_preserves_WInv hI ha hact hs
-      · simp only [specC12, hmv, Bool.false_eq_true, if_false, Bool.and_eq_true, beq_iff_eq] at hs
-        rw [hs.2]; exact hI
-    | cross a x =>
-      simp only [MoveCall.agent] at ha hact
-      by_cases hmv : (w.cfgOf a).moving = true
-      · simp only [specC12, hmv, if_true] at hs
-        cases hd : crossTable x with
-        | none => simp [hd] at hs
-        | some d =>
-          cases hr : out.ret with
-          | none => simp [hd, hr] at hs
-          | some ok => rw [hd, hr] at hs; exact move_preserves_WInv hI ha hact hs
-      · simp only [specC12, hmv, Bool.false_eq_true, if_false, Bool.and_eq_true, beq_iff_eq] at hs
-        rw [hs.2]; exact hI
-    | drift a x =>
-      simp only [MoveCall.agent] at ha hact hst_len
-      simp only [MoveCall.inSpace, Bool.and_eq_true, decide_eq_true_eq] at hsp
-      simp only [specC12, specDrift] at hs
-      by_cases hsup : ((w.cfgOf a).moving && (w.cfgOf a).hasOrient) = true
-      · rw [if_pos hsup] at hs
-        cases hd : crossTable x with
-        | none => simp [hd] at hs
-        | some d =>
-          cases hr : out.ret with
-          | none => simp [hd, hr] at hs
-          | some ok =>
-            rw [hd, hr] at hs
-            simp only at hs
-            by_cases hnew : (x != 0 && w.destFree a d) = true
-            · rw [if_pos hnew] at hs
-              simp only [Bool.and_eq_true, beq_iff_eq] at hs
-              obtain ⟨⟨_, horient⟩, hmove⟩ := hs
-              -- the world with the old orientation restored satisfies the move specification …
-              have hW := move_preserves_WInv hI ha hact hmove
-              -- … and the outcome is that world with the new orientation
-              have hlen' : a < out.post.st.length := by
-                have hstat := (specMoveBy_reading hmove).2.1
-                simp only [sameStatic, Bool.and_eq_true, beq_iff_eq, setSt, List.length_set] at hstat
-                rw [← hstat.2]; exact hst_len
-              have hback := setSt_back (w1 := out.post) (a := a) (w.stOf a).orient x.toNat hlen' horient
-              have hx : 1 ≤ x.toNat ∧ x.toNat ≤ 4 := by
-                simp only [Bool.and_eq_true, bne_iff_ne, ne_eq] at hnew
-                omega
-              have hn : a < (out.post.setSt a { out.post.stOf a with orient := (w.stOf a).orient }).n := by
-                have hstat := (specMoveBy_reading hmove).2.1
-                simp only [sameStatic, Bool.and_eq_true, beq_iff_eq] at hstat
-                simp only [n, ← hstat.1.1.2]; exact ha
-              have := orient_preserves_WInv hW hn x.toNat hx
-              rw [hback] at this
-              exact this
-            · rw [if_neg hnew] at hs
-              cases hdo : crossTable ((w.stOf a).orient : Int) with
-              | none => simp [hdo] at hs
-              | some d' => rw [hdo] at hs; exact move_preserves_WInv hI ha hact hs
-      · rw [if_neg hsup] at hs
-        simp only [Bool.and_eq_true, beq_iff_eq] at hs
-        rw [hs.2]; exact hI
+/-- a reset that goes through a placement state and the three vitals components (the order in the
+list — the iteration order of the simulation's set of state components — is arbitrary) -/
+def FullReset (w0 : World) (cs : List StateComp) : Prop :=
+  (∃ kind o, StateComp.position kind o ∈ cs) ∧ StateComp.health ∈ cs ∧ StateComp.ammo ∈ cs ∧
+  StateComp.orient ∈ cs ∧ ∀ kind o, StateComp.position kind o ∈ cs → wfPlacement kind o w0 = true
 
-/-- **C03, moves**: for every world satisfying the invariant, every active agent and every action of
-the action space, each of the three move actors returns a world satisfying the invariant. -/
-theorem C03_moves_preserve (w : World) (c : MoveCall) (hI : w.WInv = true) (ha : c.agent < w.n)
-    (hact : (w.stOf c.agent).active = true) (hsp : c.inSpace w = true) :
-    specC03Move w (runMoveCall w c) = true :=
-  WInv_of_specC12 hI ha hact hsp (C12_moves w c hI ha hact hsp)
+/-- every reset of the history is a full one -/
+def ResetsFull (w0 : World) (ops : List (GOp × Tape)) : Prop :=
+  ∀ cs t, (GOp.reset cs, t) ∈ ops → FullReset w0 cs
 
-/-! ## Resets establish the invariant (state components in any order) -/
+theorem sframe_of_sameStatic {w w' : World} (h : sameStatic w w' = true) : SFrame w w' := by
+  obtain ⟨h1, h2, h3, h4, _, h6⟩ := (sameStatic_iff w w').mp h
+  exact ⟨h1.symm, h2.symm, h3.symm, h4.symm, h6.symm⟩
 
-/-- what no component changes -/
-structure SFrame (w w' : World) : Prop where
-  rows : w'.rows = w.rows
-  cols : w'.cols = w.cols
-  overlap : w'.overlap = w.overlap
-  cfg : w'.cfg = w.cfg
-  len : w'.st.length = w.st.length
+/-- the ammunition clause for agents without ammunition is part of the invariant -/
+theorem noAmmoC_of_WInv {w : World} (hI : w.WInv = true) : NoAmmoC w := by
+  intro a ha _
+  have hA := ((WInv_parts_iff w).mp hI).2.2.1 a ha
+  simp only [wAgent, Bool.and_eq_true, decide_eq_true_eq] at hA
+  exact hA.1.1.2
 
-theorem SFrame.refl (w : World) : SFrame w w := ⟨rfl, rfl, rfl, rfl, rfl⟩
-theorem SFrame.trans {w w' w'' : World} (h : SFrame w w') (h' : SFrame w' w'') : SFrame w w'' :=
-  ⟨h'.rows.trans h.rows, h'.cols.trans h.cols, h'.overlap.trans h.overlap, h'.cfg.trans h.cfg,
-   h'.len.trans h.len⟩
-theorem SFrame.of_vframe {w w' : World} (h : VFrame w w') : SFrame w w' :=
-  ⟨h.rows, h.cols, h.overlap, h.cfg, h.len⟩
-
-/-- the four clause groups of the invariant -/
-def PosC (w : World) : Prop := w.posInv = true
-def HealthC (w : World) : Prop :=
-  ∀ a < w.n, 0 < (w.stOf a).health ∧ (w.stOf a).health ≤ 1 ∧ (w.stOf a).active = true
-def AmmoC (w : World) : Prop :=
-  ∀ a < w.n, (w.cfgOf a).hasAmmo = true → 0 ≤ (w.stOf a).ammo ∧ (w.stOf a).ammo ≤ max 0 (w.cfgOf a).initAmmo
-def OrientC (w : World) : Prop :=
-  ∀ a < w.n, (w.cfgOf a).hasOrient = true → 1 ≤ (w.stOf a).orient ∧ (w.stOf a).orient ≤ 4
-/-- the ammunition field of an agent without ammunition is never written -/
-def NoAmmoC (w : World) : Prop := ∀ a < w.n, (w.cfgOf a).hasAmmo = false → 0 ≤ (w.stOf a).ammo
-
-/-- the invariant is the conjunction of the clause groups (given the symmetric table) -/
-theorem WInv_of_clauses {w : World} (hp : PosC w) (hh : HealthC w) (ha : AmmoC w) (ho : OrientC w)
-    (hn : NoAmmoC w) (hsym : w.wOverlapSym = true) : w.WInv = true := by
-  unfold PosC at hp
-  simp only [posInv, Bool.and_eq_true, List.all_eq_true, allCells, allAgents, List.mem_range] at hp
-  obtain ⟨⟨hshape, hcells⟩, hagents⟩ := hp
-  rw [WInv_parts_iff]
-  refine ⟨hshape, ?_, ?_, hsym⟩
-  · intro i hi
-    have hc := hcells i hi
-    simp only [posCell, Bool.and_eq_true, decide_eq_true_eq, List.all_eq_true, beq_iff_eq,
-      Bool.or_eq_true] at hc
-    rw [wCell_reading]
-    refine ⟨hc.1.1, ?_, hc.2⟩
-    intro a ha'
-    obtain ⟨⟨h1, h2⟩, h3⟩ := hc.1.2 a ha'
-    exact ⟨h1, (hh a h1).2.2, h2, h3⟩
-  · intro a han
-    have hpa := hagents a han
-    simp only [posAgent, Bool.and_eq_true, decide_eq_true_eq] at hpa
-    obtain ⟨h0, h1, hact⟩ := hh a han
-    rw [wAgent_reading]
-    refine ⟨fun _ => hpa, le_of_lt h0, h1, by simp [hact, h0], ?_, ?_, ho a han⟩
-    · cases hA : (w.cfgOf a).hasAmmo with
-      | true => exact (ha a han hA).1
-      | false => exact hn a han hA
-    · intro hA; exact (ha a han hA).2
-
-theorem posInv_of_vframe {w w' : World} (h : VFrame w w') : w'.posInv = w.posInv := by
-  have hc : w'.posCell = w.posCell := by
-    funext i
-    simp only [posCell, n, idx, inGrid, encOf, cfgOf, pairOK, h.cells, h.rows, h.cols, h.cfg,
-      h.overlap, h.pos]
-    rfl
-  have ha : w'.posAgent = w.posAgent := by
-    funext a
-    simp only [posAgent, cell, idx, inGrid, h.cells, h.rows, h.cols, h.pos]
-    rfl
-  simp only [posInv, wShape, allCells, allAgents, n, hc, ha, h.cells, h.rows, h.cols, h.cfg, h.len]
-
-theorem clause_frame {w w' : World} (hs : SFrame w w') :
-    w'.n = w.n ∧ (∀ b, w'.cfgOf b = w.cfgOf b) := by
-  refine ⟨by simp [n, hs.cfg], fun b => by simp [cfgOf, hs.cfg]⟩
-
-/-- what one component's reset does to the clause groups -/
-theorem applyComp_spec (c : StateComp) (w : World) (t : Tape) (w' : World) (t' : Tape)
-    (hwf : ∀ kind o, c = .position kind o → wfPlacement kind o w = true) (hcfg : CfgOK w)
-    (hlen : w.st.length = w.cfg.length) (h : applyComp c w t = .ok (w', t')) :
-    SFrame w w' ∧ (NoAmmoC w → NoAmmoC w') ∧
-    ((∃ kind o, c = .position kind o) ∨ PosC w → PosC w') ∧
-    (c = .health ∨ HealthC w → HealthC w') ∧
-    (c = .ammo ∨ AmmoC w → AmmoC w') ∧
-    (c = .orient ∨ OrientC w → OrientC w') := by
+/-- a move call leaves the static part alone -/
+theorem move_sframe {w : World} {c : MoveCall} {o : MoveOut} (hs : specC12 w c (.ok o) = true) :
+    SFrame w o.post := by
+  have key : ∀ {a d ok}, specMoveBy w a d ok o.post = true → SFrame w o.post := fun h =>
+    sframe_of_sameStatic (specMoveBy_reading h).2.1
+  have same : ∀ {b : Bool}, (b && o.post == w) = true → SFrame w o.post := by
+    intro b h
+    simp only [Bool.and_eq_true, beq_iff_eq] at h
+    rw [h.2]; exact SFrame.refl w
   cases c with
-  | position kind o =>
-    have hspec := place_ok_spec kind o w t (hwf kind o rfl)
-    simp only [applyComp, placementReset, PlaceOut.toExcept] at h
-    cases herr : (resetX kind o w t).1.err with
-    | some e => rw [herr] at h; cases h
-    | none =>
-      rw [herr] at h
-      simp only [Except.ok.injEq, Prod.mk.injEq] at h
-      have hpos := (spec_ok_parts hspec herr).1
-      unfold specPlacement at hspec
-      simp only [Bool.and_eq_true] at hspec
-      obtain ⟨⟨⟨⟨hsg, hsh⟩, hvk⟩, _⟩, _⟩ := hspec
-      rw [h.1] at hsg hsh hvk hpos
-      simp only [sameGrid, Bool.and_eq_true, beq_iff_eq] at hsg
-      simp only [wShape, Bool.and_eq_true, beq_iff_eq] at hsh
-      have hS : SFrame w w' := ⟨hsg.1.1.1.symm, hsg.1.1.2.symm, hsg.1.2.symm, hsg.2.symm,
-        by rw [hsh.2, ← hsg.2, hlen]⟩
-      obtain ⟨hn, hcf⟩ := clause_frame hS
-      have hv : ∀ a < w.n, w'.stOf a = { w.stOf a with pos := (w'.stOf a).pos } := by
-        simp only [vitalsKept, List.all_eq_true, allAgents, List.mem_range, beq_iff_eq] at hvk
-        exact hvk
-      refine ⟨hS, ?_, fun _ => hpos, ?_, ?_, ?_⟩
-      · intro hN a ha hA
-        rw [hn] at ha; rw [hcf] at hA; rw [hv a ha]; exact hN a ha hA
-      · rintro (hc | hH)
-        · cases hc
-        · intro a ha; rw [hn] at ha; rw [hv a ha]; exact hH a ha
-      · rintro (hc | hA)
-        · cases hc
-        · intro a ha hAm; rw [hn] at ha; rw [hcf] at hAm ⊢; rw [hv a ha]; exact hA a ha hAm
-      · rintro (hc | hO)
-        · cases hc
-        · intro a ha hOr; rw [hn] at ha; rw [hcf] at hOr; rw [hv a ha]; exact hO a ha hOr
-  | health =>
-    simp only [applyComp, Except.ok.injEq] at h
-    obtain ⟨hF, h2, h3, h4⟩ := healthResetFrom_spec (List.range w.n) w t List.nodup_range hcfg
-    have hw' : w' = (healthResetFrom false (List.range w.n) w t).1 := by
-      have := congrArg Prod.fst h; exact this.symm
-    rw [← hw'] at hF h2 h3 h4
-    have hS := SFrame.of_vframe hF
-    obtain ⟨hn, hcf⟩ := clause_frame hS
-    refine ⟨hS, ?_, ?_, ?_, ?_, ?_⟩
-    · intro hN a ha hA; rw [hn] at ha; rw [hcf] at hA; rw [(h3 a).1]; exact hN a ha hA
-    · rintro (⟨_, _, hc⟩ | hP)
-      · cases hc
-      · unfold PosC at hP ⊢; rw [posInv_of_vframe hF]; exact hP
-    · intro _ a ha
-      rw [hn] at ha
-      exact h4 a (List.mem_range.mpr ha) (by rw [hlen]; exact ha)
-    · rintro (hc | hA)
-      · cases hc
-      · intro a ha hAm; rw [hn] at ha; rw [hcf] at hAm ⊢; rw [(h3 a).1]; exact hA a ha hAm
-    · rintro (hc | hO)
-      · cases hc
-      · intro a ha hOr; rw [hn] at ha; rw [hcf] at hOr; rw [(h3 a).2]; exact hO a ha hOr
-  | ammo =>
-    simp only [applyComp, Except.ok.injEq, Prod.mk.injEq] at h
-    obtain ⟨hF, h2, h3, h4, h5⟩ := ammoResetFrom_spec (List.range w.n) w List.nodup_range
-    have hw' : w' = ammoResetFrom (List.range w.n) w := h.1.symm
-    rw [← hw'] at hF h2 h3 h4 h5
-    have hS := SFrame.of_vframe hF
-    obtain ⟨hn, hcf⟩ := clause_frame hS
-    refine ⟨hS, ?_, ?_, ?_, ?_, ?_⟩
-    · intro hN a ha hA; rw [hn] at ha; rw [hcf] at hA; rw [h5 a hA]; exact hN a ha hA
-    · rintro (⟨_, _, hc⟩ | hP)
-      · cases hc
-      · unfold PosC at hP ⊢; rw [posInv_of_vframe hF]; exact hP
-    · rintro (hc | hH)
-      · cases hc
-      · intro a ha; rw [hn] at ha; rw [(h3 a).1, (h3 a).2.1]; exact hH a ha
-    · intro _ a ha hAm
-      rw [hn] at ha; rw [hcf] at hAm ⊢
-      rw [h4 a (List.mem_range.mpr ha) (by rw [hlen]; exact ha) hAm]
-      exact ⟨le_max_left _ _, le_refl _⟩
-    · rintro (hc | hO)
-      · cases hc
-      · intro a ha hOr; rw [hn] at ha; rw [hcf] at hOr; rw [(h3 a).2.2]; exact hO a ha hOr
-  | orient =>
-    simp only [applyComp, Except.ok.injEq] at h
-    obtain ⟨hF, h2, h3, h4⟩ := orientResetFrom_spec (List.range w.n) w t List.nodup_range hcfg
-    have hw' : w' = (orientResetFrom (List.range w.n) w t).1 := by
-      have := congrArg Prod.fst h; exact this.symm
-    rw [← hw'] at hF h2 h3 h4
-    have hS := SFrame.of_vframe hF
-    obtain ⟨hn, hcf⟩ := clause_frame hS
-    refine ⟨hS, ?_, ?_, ?_, ?_, ?_⟩
-    · intro hN a ha hA; rw [hn] at ha; rw [hcf] at hA; rw [(h3 a).2.2]; exact hN a ha hA
-    · rintro (⟨_, _, hc⟩ | hP)
-      · cases hc
-      · unfold PosC at hP ⊢; rw [posInv_of_vframe hF]; exact hP
-    · rintro (hc | hH)
-      · cases hc
-      · intro a ha; rw [hn] at ha; rw [(h3 a).1, (h3 a).2.1]; exact hH a ha
-    · rintro (hc | hA)
-      · cases hc
-      · intro a ha hAm; rw [hn] at ha; rw [hcf] at hAm ⊢; rw [(h3 a).2.2]; exact hA a ha hAm
-    · intro _ a ha hOr
-      rw [hn] at ha; rw [hcf] at hOr
-      exact h4 a (List.mem_range.mpr ha) (by rw [hlen]; exact ha) hOr
+  | move a d =>
+    simp only [specC12] at hs
+    split at hs
+    · split at hs
+      · exact key hs
+      · cases hs
+    · exact same hs
+  | cross a x =>
+    simp only [specC12] at hs
+    split at hs
+    · split at hs
+      · exact key hs
+      · cases hs
+    · exact same hs
+  | drift a x =>
+    simp only [specC12, specDrift] at hs
+    split at hs
+    · split at hs
+      · split at hs
+        · simp only [Bool.and_eq_true] at hs
+          have h := sframe_of_sameStatic (specMoveBy_reading hs.2).2.1
+          exact ⟨h.rows, h.cols, h.overlap, h.cfg, by simpa [setSt] using h.len⟩
+        · split at hs
+          · exact key hs
+          · cases hs
+      · cases hs
+    · exact same hs
 
-theorem cfgOK_of_sframe {w w' : World} (hs : SFrame w w') (h : CfgOK w) : CfgOK w' :=
-  ⟨fun a x hx => h.health a x (by rw [← (clause_frame hs).2 a]; exact hx),
-   fun a x hx => h.orient a x (by rw [← (clause_frame hs).2 a]; exact hx)⟩
-
-theorem wfPlacement_of_sframe {w w' : World} (hs : SFrame w w') (kind : PKind) (o : PlaceOpts) :
-    wfPlacement kind o w' = wfPlacement kind o w := by
-  have hn : w'.n = w.n := (clause_frame hs).1
-  have henc : w'.encOf = w.encOf := by funext a; simp [encOf, (clause_frame hs).2 a]
-  have hcf : w'.cfgOf = w.cfgOf := by funext a; exact (clause_frame hs).2 a
-  have hin : w'.inGrid = w.inGrid := by funext p; simp [inGrid, hs.rows, hs.cols]
-  have hpk : w'.pairOK = w.pairOK := by funext a b; simp [pairOK, hs.overlap]
-  have hsym : w'.wOverlapSym = w.wOverlapSym := by simp [wOverlapSym, hs.overlap, hpk]
-  have hfix : isFixed w' = isFixed w := by funext a; simp [isFixed, hcf]
-  simp only [wfPlacement, allAgents, hn, henc, hcf, hin, hpk, hsym, hfix, hs.rows, hs.cols, hs.len, hs.cfg]
-
-/-- every clause group holds after the components of a list have been reset one after the other,
-provided it held before or its component is in the list — **in any order** -/
-theorem applyComps_spec (cs : List StateComp) :
-    ∀ (w : World) (t : Tape) (w' : World) (t' : Tape),
-      (∀ kind o, StateComp.position kind o ∈ cs → wfPlacement kind o w = true) → CfgOK w →
-      w.st.length = w.cfg.length → applyComps cs w t = .ok (w', t') →
-      SFrame w w' ∧ (NoAmmoC w → NoAmmoC w') ∧
-      ((∃ kind o, StateComp.position kind o ∈ cs) ∨ PosC w → PosC w') ∧
-      (StateComp.health ∈ cs ∨ HealthC w → HealthC w') ∧
-      (StateComp.ammo ∈ cs ∨ AmmoC w → AmmoC w') ∧
-      (StateComp.orient ∈ cs ∨ OrientC w → OrientC w') := by
-  induction cs with
-  | nil =>
-    intro w t w' t' _ _ _ h
-    simp only [applyComps, Except.ok.injEq, Prod.mk.injEq] at h
-    rw [← h.1]
-    refine ⟨SFrame.refl w, id, ?_, ?_, ?_, ?_⟩
-    · rintro (⟨_, _, h⟩ | h); cases h; exact h
-    · rintro (h | h); cases h; exact h
-    · rintro (h | h); cases h; exact h
-    · rintro (h | h); cases h; exact h
-  | cons c cs ih =>
-    intro w t w' t' hwf hcfg hlen h
-    simp only [applyComps] at h
-    cases h1 : applyComp c w t with
-    | error e => rw [h1] at h; cases h
+/-- the step of the induction -/
+theorem runGOp_step {w0 w w' : World} {t : Tape} {op : GOp} (hcfg : CfgOK w0)
+    (hfull : ∀ cs, op = .reset cs → FullReset w0 cs)
+    (hF : SFrame w0 w) (hI : w.WInv = true) (h : runGOp w t op = .ok w') :
+    SFrame w0 w' ∧ w'.WInv = true := by
+  cases op with
+  | move c =>
+    simp only [runGOp] at h
+    split at h
+    · rename_i hg
+      simp only [Bool.and_eq_true, decide_eq_true_eq] at hg
+      obtain ⟨⟨ha, hact⟩, hsp⟩ := hg
+      have h12 := C12_moves w c hI ha hact hsp
+      have h03 := C03_moves_preserve w c hI ha hact hsp
+      cases hm : runMoveCall w c with
+      | error e => rw [hm] at h; cases h
+      | ok o =>
+        rw [hm] at h h12 h03
+        simp only [Except.map, Except.ok.injEq] at h
+        subst h
+        refine ⟨hF.trans (move_sframe h12), ?_⟩
+        simpa [specC03Move, hI] using h03
+    · cases h; exact ⟨hF, hI⟩
+  | attack cfg a act =>
+    simp only [runGOp] at h
+    split at h
+    · rename_i hg
+      simp only [Bool.and_eq_true, decide_eq_true_eq] at hg
+      cases hp : processAttack cfg w a act t with
+      | error e => rw [hp] at h; cases h
+      | ok r =>
+        obtain ⟨⟨st, H⟩, w1, t1⟩ := r
+        rw [hp] at h
+        simp only [Except.map, Except.ok.injEq] at h
+        subst h
+        refine ⟨?_, processAttack_WInv hI hp⟩
+        obtain ⟨hb, hn⟩ := attack_frame cfg w a act t hI hg.1 hp
+        cases hatt : (w.cfgOf a).attacking with
+        | true =>
+          have hb := hb hatt
+          simp only [specBook, Bool.and_eq_true] at hb
+          exact hF.trans (sframe_of_sameStatic hb.1.1.1)
+        | false => rw [(hn hatt).2]; exact hF
+    · cases h; exact ⟨hF, hI⟩
+  | reset cs =>
+    obtain ⟨hpos, hh, ha, ho, hwf⟩ := hfull cs rfl
+    simp only [runGOp] at h
+    cases hr : applyComps cs w t with
+    | error e => rw [hr] at h; cases h
     | ok r =>
       obtain ⟨w1, t1⟩ := r
-      rw [h1] at h
-      simp only at h
-      obtain ⟨hS1, hN1, hP1, hH1, hA1, hO1⟩ :=
-        applyComp_spec c w t w1 t1 (fun k o hc => hwf k o (by rw [hc]; exact List.mem_cons_self)) hcfg hlen h1
-      have hlen1 : w1.st.length = w1.cfg.length := by rw [hS1.len, hS1.cfg]; exact hlen
-      obtain ⟨hS2, hN2, hP2, hH2, hA2, hO2⟩ := ih w1 t1 w' t'
-        (fun k o hm => by rw [wfPlacement_of_sframe hS1]; exact hwf k o (List.mem_cons_of_mem _ hm))
-        (cfgOK_of_sframe hS1 hcfg) hlen1 h
-      refine ⟨hS1.trans hS2, fun hn => hN2 (hN1 hn), ?_, ?_, ?_, ?_⟩
-      · rintro (⟨k, o, hm⟩ | hp)
-        · rcases List.mem_cons.mp hm with hm | hm
-          · exact hP2 (Or.inr (hP1 (Or.inl ⟨k, o, hm.symm⟩)))
-          · exact hP2 (Or.inl ⟨k, o, hm⟩)
-        · exact hP2 (Or.inr (hP1 (Or.inr hp)))
-      · rintro (hm | hp)
-        · rcases List.mem_cons.mp hm with hm | hm
-          · exact hH2 (Or.inr (hH1 (Or.inl hm.symm)))
-          · exact hH2 (Or.inl hm)
-        · exact hH2 (Or.inr (hH1 (Or.inr hp)))
-      · rintro (hm | hp)
-        · rcases List.mem_cons.mp hm with hm | hm
-          · exact hA2 (Or.inr (hA1 (Or.inl hm.symm)))
-          · exact hA2 (Or.inl hm)
-        · exact hA2 (Or.inr (hA1 (Or.inr hp)))
-      · rintro (hm | hp)
-        · rcases List.mem_cons.mp hm with hm | hm
-          · exact hO2 (Or.inr (hO1 (Or.inl hm.symm)))
-          · exact hO2 (Or.inl hm)
-        · exact hO2 (Or.inr (hO1 (Or.inr hp)))
+      rw [hr] at h
+      simp only [Except.map, Except.ok.injEq] at h
+      subst h
+      have hwf' : ∀ kind o, StateComp.position kind o ∈ cs → wfPlacement kind o w = true :=
+        fun k o hm => by rw [wfPlacement_of_sframe hF]; exact hwf k o hm
+      have hcfg' := cfgOK_of_sframe hF hcfg
+      refine ⟨?_, C03_reset_establishes cs w t w1 t1 hpos hh ha ho hwf' hcfg' (noAmmoC_of_WInv hI) hr⟩
+      obtain ⟨k0, o0, hm0⟩ := hpos
+      have hlen : w.st.length = w.cfg.length := by
+        have := hwf' k0 o0 hm0
+        simp only [wfPlacement, Bool.and_eq_true, beq_iff_eq] at this
+        exact this.1.1.1.2
+      exact hF.trans (applyComps_spec cs w t w1 t1 hwf' hcfg' hlen hr).1
 
-/-- **C03, resets**: from **any** prior world (dirty grid, dead agents, anything), a successful reset
-through a placement state, `HealthState`, `AmmoState` and `OrientationState` — in any order, any
-tape — yields a world satisfying the invariant.  Hypotheses: the configuration facts the
-constructors guarantee (`wfPlacement`, `CfgOK`; C19) and that the ammunition field of agents without
-ammunition was never written.  (A drawn initial health is never exactly 0 in the regular oracle
-stream; numpy's `uniform(0, 1)` can return 0.0 with probability 2⁻⁵³: finding K4, witnessed below.) -/
-theorem C03_reset_establishes (cs : List StateComp) (w : World) (t : Tape) (w' : World) (t' : Tape)
-    (hpos : ∃ kind o, StateComp.position kind o ∈ cs) (hh : StateComp.health ∈ cs)
-    (ha : StateComp.ammo ∈ cs) (ho : StateComp.orient ∈ cs)
-    (hwf : ∀ kind o, StateComp.position kind o ∈ cs → wfPlacement kind o w = true) (hcfg : CfgOK w)
-    (hn : NoAmmoC w) (h : applyComps cs w t = .ok (w', t')) : w'.WInv = true := by
-  obtain ⟨k0, o0, hm0⟩ := hpos
-  have hwf0 := hwf k0 o0 hm0
-  have hlen : w.st.length = w.cfg.length := by
-    simp only [wfPlacement, Bool.and_eq_true, beq_iff_eq] at hwf0
-    exact hwf0.1.1.1.2
-  have hsym : w.wOverlapSym = true := by
-    simp only [wfPlacement, Bool.and_eq_true] at hwf0
-    exact hwf0.1.1.2
-  obtain ⟨hS, hN, hP, hH, hA, hO⟩ := applyComps_spec cs w t w' t' hwf hcfg hlen h
-  have hsym' : w'.wOverlapSym = true := by
-    have hpk : w'.pairOK = w.pairOK := by funext a b; simp [pairOK, hS.overlap]
-    simp only [wOverlapSym, hS.overlap, hpk] at hsym ⊢
-    exact hsym
-  exact WInv_of_clauses (hP (Or.inl ⟨k0, o0, hm0⟩)) (hH (Or.inl hh)) (hA (Or.inl ha)) (hO (Or.inl ho))
-    (hN hn) hsym'
+theorem runGOps_inv {w0 : World} (hcfg : CfgOK w0) (ops : List (GOp × Tape)) :
+    ∀ (w w' : World), ResetsFull w0 ops → SFrame w0 w → w.WInv = true → runGOps w ops = .ok w' →
+      SFrame w0 w' ∧ w'.WInv = true := by
+  induction ops with
+  | nil =>
+    intro w w' _ hF hI h
+    simp only [runGOps, Except.ok.injEq] at h
+    subst h; exact ⟨hF, hI⟩
+  | cons p rest ih =>
+    intro w w' hR hF hI h
+    obtain ⟨op, t⟩ := p
+    simp only [runGOps] at h
+    cases h1 : runGOp w t op with
+    | error e => rw [h1] at h; cases h
+    | ok w1 =>
+      rw [h1] at h
+      obtain ⟨hF1, hI1⟩ := runGOp_step hcfg
+        (fun cs hc => hR cs t (by rw [hc]; exact List.mem_cons_self)) hF hI h1
+      exact ih w1 w' (fun cs t' hm => hR cs t' (List.mem_cons_of_mem _ hm)) hF1 hI1 h
+
+/-- **C03**: from **any** initial world `w0` (dirty grid, stale agents — whatever the constructors
+left), after a first full reset every history of moves, attacks (with the deaths they cause) and
+further full resets — any agents, actions, tapes, interleaving and length — that runs to its end
+leaves a world satisfying the invariant.  Hypotheses: the configuration facts the constructors
+guarantee (`CfgOK`, `wfPlacement`; C19) and that the ammunition field of agents without ammunition
+was never written before the first reset. -/
+theorem C03_reachable (w0 : World) (cs0 : List StateComp) (t0 : Tape) (ops : List (GOp × Tape))
+    (hcfg : CfgOK w0) (hn : NoAmmoC w0) (h0 : FullReset w0 cs0) (hR : ResetsFull w0 ops) {w : World}
+    (h : runGOps w0 ((.reset cs0, t0) :: ops) = .ok w) : w.WInv = true := by
+  obtain ⟨hpos, hh, ha, ho, hwf⟩ := h0
+  simp only [runGOps, runGOp] at h
+  cases hr : applyComps cs0 w0 t0 with
+  | error e => rw [hr] at h; cases h
+  | ok r =>
+    obtain ⟨w1, t1⟩ := r
+    rw [hr] at h
+    simp only [Except.map] at h
+    have hI1 := C03_reset_establishes cs0 w0 t0 w1 t1 hpos hh ha ho hwf hcfg hn hr
+    obtain ⟨k0, o0, hm0⟩ := hpos
+    have hlen : w0.st.length = w0.cfg.length := by
+      have := hwf k0 o0 hm0
+      simp only [wfPlacement, Bool.and_eq_true, beq_iff_eq] at this
+      exact this.1.1.1.2
+    have hF1 := (applyComps_spec cs0 w0 t0 w1 t1 hwf hcfg hlen hr).1
+    exact (runGOps_inv hcfg ops w1 w hR hF1 hI1 h).2
+
+/-- every entry of the trace is the end of the run of a non-empty prefix -/
+theorem trace_prefix (ops : List (GOp × Tape)) :
+    ∀ (w : World) (r : Except GErr World), r ∈ traceGOps w ops → ∀ w', r = .ok w' →
+      ∃ k, 0 < k ∧ runGOps w (ops.take k) = .ok w' := by
+  induction ops with
+  | nil => intro w r hr; simp [traceGOps] at hr
+  | cons p rest ih =>
+    intro w r hr w' hw
+    obtain ⟨op, t⟩ := p
+    simp only [traceGOps] at hr
+    cases h1 : runGOp w t op with
+    | error e =>
+      rw [h1] at hr
+      simp only [List.mem_singleton] at hr
+      rw [hr] at hw; cases hw
+    | ok w1 =>
+      rw [h1] at hr
+      rcases List.mem_cons.mp hr with hr | hr
+      · refine ⟨1, Nat.one_pos, ?_⟩
+        rw [hr] at hw; cases hw
+        simp [List.take, runGOps, h1]
+      · obtain ⟨k, _, hk⟩ := ih w1 r hr w' hw
+        refine ⟨k + 1, Nat.succ_pos k, ?_⟩
+        simp only [List.take_succ_cons, runGOps, h1]
+        exact hk
+
+/-- every intermediate world of a history satisfies the invariant too -/
+theorem C03_every_step (w0 : World) (cs0 : List StateComp) (t0 : Tape) (ops : List (GOp × Tape))
+    (hcfg : CfgOK w0) (hn : NoAmmoC w0) (h0 : FullReset w0 cs0) (hR : ResetsFull w0 ops) :
+    ∀ r ∈ traceGOps w0 ((.reset cs0, t0) :: ops), ∀ w, r = .ok w → w.WInv = true := by
+  intro r hr w hw
+  obtain ⟨k, hk0, hk⟩ := trace_prefix _ _ r hr w hw
+  cases k with
+  | zero => cases hk0
+  | succ k =>
+    rw [List.take_succ_cons] at hk
+    exact C03_reachable w0 cs0 t0 (ops.take k) hcfg hn h0
+      (fun cs t hm => hR cs t (List.mem_of_mem_take hm)) hk
 
 end Abmarl
